@@ -91,6 +91,7 @@ type Contracts struct {
 	Specs   map[string]*SpecFunc
 	Types   map[string]*TypeDecl // key pkg.Type
 	Axioms  []*Axiom
+	Conds   []*CondDecl
 	Globals map[string]string // pkg.var -> declaration (e.g. "guarded_by pkg.lock", "atomic", "init_only")
 	Files   []string
 	Errors  []string
@@ -138,6 +139,7 @@ func (cs *Contracts) LoadFile(path string) {
 	pkg := ""
 	var cur *FuncContract
 	var curType *TypeDecl
+	var curCond *CondDecl
 	lineNo := 0
 	pending := ""
 	pendingLine := 0
@@ -276,6 +278,35 @@ func (cs *Contracts) LoadFile(path string) {
 				}
 			default:
 				cs.errf(path, ln, "unknown type clause %q", parts[1])
+			}
+		case "cond":
+			cur, curType = nil, nil
+			tf := strings.SplitN(strings.TrimSpace(rest), ".", 2)
+			if len(tf) != 2 {
+				cs.errf(path, ln, "bad cond declaration %q", rest)
+				continue
+			}
+			curCond = &CondDecl{Pkg: pkg, Type: tf[0], Field: tf[1], File: path, Line: ln}
+			cs.Conds = append(cs.Conds, curCond)
+		case "readers", "writers", "consumers":
+			if curCond == nil {
+				cs.errf(path, ln, "%s outside a cond block", word)
+				continue
+			}
+			var items []string
+			for _, it := range strings.Split(rest, ",") {
+				if strings.TrimSpace(it) != "" {
+					items = append(items, strings.TrimSpace(it))
+				}
+			}
+			switch word {
+			case "readers":
+				curCond.Readers = append(curCond.Readers, items...)
+				curCond.ReaderGroups = append(curCond.ReaderGroups, items)
+			case "writers":
+				curCond.Writers = append(curCond.Writers, items...)
+			case "consumers":
+				curCond.Consumers = append(curCond.Consumers, items...)
 			}
 		case "global":
 			cur, curType = nil, nil
